@@ -550,6 +550,23 @@ pub fn cut_outcome(c: &CutCase) -> Outcome {
                     }
                 }
             }
+            if kind == Kind::Sub {
+                // every subscription change of the tail reached every healthy publisher, in
+                // order, whatever happened to the write towards the victim
+                let want: Vec<Frames> = (0..(c.rounds + 2)).map(|r| vec![{
+                    let mut v = vec![1u8];
+                    v.extend_from_slice(format!("t{}", r).as_bytes());
+                    v
+                }]).collect();
+                for (hi, (l, _)) in healthy.iter().enumerate() {
+                    let got = l.lib_messages_prefix().map(|x| x.0).unwrap_or_default();
+                    let mut it = got.iter();
+                    if !want.iter().all(|w| it.any(|g| g == w)) {
+                        fail!(f, format!("C16/SUB/{}/healthy-traffic-disturbed", ck), "healthy publisher {} was told {} of the {} subscription changes made after the victim's connection ended", hi, got.iter().filter(|g| want.contains(g)).count(), want.len());
+                        break;
+                    }
+                }
+            }
             if matches!(kind, Kind::Push | Kind::Dealer | Kind::Req) {
                 let on_healthy: usize = healthy.iter().map(|(l, _)| l.lib_messages_prefix().map(|x| x.0.len()).unwrap_or(0)).sum();
                 if on_healthy != ok_sends {
@@ -679,6 +696,10 @@ pub struct CycleCase {
     pub cycles: usize,
     /// the client resets (SO_LINGER 0 is not available here: it simply drops mid-message)
     pub mid_message: bool,
+    /// `monitor()` is called before the bind and the receiver kept (some back ends do extra
+    /// per-peer work only then)
+    #[serde(default)]
+    pub monitor: bool,
 }
 
 pub fn cycle_outcome(c: &CycleCase) -> Outcome {
@@ -695,6 +716,7 @@ pub fn cycle_outcome(c: &CycleCase) -> Outcome {
             let who = kind.name();
             let mut f: Vec<Failure> = vec![];
             let mut s = crate::sim::AnySocket::new(kind, None);
+            let _monitor_rx = if c.monitor { Some(realnet::sock_monitor(&mut s)) } else { None };
             let ep = match realnet::sock_bind(&mut s, &c.transport.bind_text()).await {
                 Ok(e) => e.to_string(),
                 Err(e) => {
@@ -1141,7 +1163,7 @@ pub fn run(ctx: &Ctx) -> (Report, PropertyMeta) {
                 if t == Tier::Quick && mid_message && transport == crate::realnet::Transport::Ipc {
                     continue;
                 }
-                cc.push(CycleCase { kind, transport, cycles, mid_message });
+                cc.push(CycleCase { kind, transport, cycles, mid_message, monitor: (transport == crate::realnet::Transport::Ipc) != mid_message });
             }
         }
     }
